@@ -11,7 +11,7 @@ from ..publicops import canon_label, cv
 
 PID = "C16"
 MODULES = ["GroupbyVerif.Props.C16"]
-RULE = ("seeded random datasets (1-2 keys incl. null keys and unused categories, <= 16 rows, boolean/no mask) x {var, std (ddof 0/1) on small integers "
+RULE = ("seeded random datasets (1-2 keys incl. null keys and unused categories, <= 16 rows, boolean/no mask) x {var, std (ddof 0..3) on small integers "
         "(exact rational oracle), on int32/int64 values up to 7e8 in magnitude (group sums whose square leaves int64) and on floats with arbitrary offsets 0..1e8 and scales 1e-3..1e3 (error bound 16*n*eps*max|x|^2), median, quantile lists, "
         "apply with user functions returning a scalar / a fixed-length vector / an input-aligned vector, agg with a list of functions and with a single one (four function sets incl. median / size, with observed_only on and off on keys with unused categories), ratio, subset_ratio, "
         "density (values and sizes, with and without margins)}; var / std / ratio / subset_ratio / density on integral values are also compared with the Lean model "
@@ -44,7 +44,7 @@ def gen_cases(tier, rng):
         classes = [rng.choice(["int", "float", "str", "categorical"]) for _ in range(nkeys)]
         ds = gen_dataset(rng, max_rows=16, max_labels=3, nkeys=nkeys, key_classes=classes, vdt="f64", mask_kinds=("none", "b"), min_rows=1)
         ds["sort"] = True
-        case = {**ds, "op": op, "ddof": rng.choice([0, 1]), "q": rng.choice([[0.5], [0.25, 0.75], [0.0, 0.3, 1.0]]),
+        case = {**ds, "op": op, "ddof": rng.choice([0, 1, 1, 2, 3]), "q": rng.choice([[0.5], [0.25, 0.75], [0.0, 0.3, 1.0]]),
                 "ncols": rng.choice([1, 1, 2]), "offset": rng.choice([0, 1, 1e3, 1e6, 1e8]), "scale": rng.choice([1e-3, 1, 1e3]),
                 "noise": [rng.random() for _ in range(len(ds["vals"]))], "margins": rng.random() < 0.4}
         if op == "var_int":
@@ -52,6 +52,12 @@ def gen_cases(tier, rng):
             sgn = rng.choice([1, -1])
             case["big"] = [sgn * (5 * 10 ** 8 + rng.randrange(0, 2 * 10 ** 8)) if rng.random() < 0.9 else rng.randrange(-1000, 1000) for _ in range(len(ds["vals"]))]
             case["idt"] = rng.choice(["int64", "int32"])
+            if rng.random() < 0.4:
+                # ordinary 64-bit data (ids, epoch seconds ...) whose SQUARES no longer fit 64 bits when added up: the variance must
+                # still be right to rounding (the kernel accumulates squares in float64)
+                case["big"] = [sgn * (2 * 10 ** 9 + rng.randrange(0, 2 * 10 ** 9)) if rng.random() < 0.9 else rng.randrange(-1000, 1000)
+                               for _ in range(len(ds["vals"]))]
+                case["idt"] = "int64"
         if op == "agg_list":
             case["funcs"] = rng.choice([["sum", "max", "count"], ["mean", "min", "first"], ["sum", "median", "size"], ["last", "var"]])
             case["observed_only"] = rng.random() < 0.5
@@ -154,7 +160,7 @@ def evaluate(case, drv):
                 m = len(xs)
                 g = got[lab]
                 if m - case["ddof"] <= 0:
-                    if not (isinstance(g, float) and (math.isnan(g) or math.isinf(g))):
+                    if not (isinstance(g, float) and math.isnan(g)):
                         return bad(f"{lab}: null (too few values)", g)
                     continue
                 mean = sum(xs) / m
